@@ -25,7 +25,7 @@ ASSUMPTIONS = [
     "per-tomogram dimension tables list every tomogram of the particle list (plus possibly others); flipping with a table that omits a tomogram is not specified",
     "position tolerance 1e-9 * max(1, |p|, scale history); only for particles that passed within 1e-4 rad of gimbal lock: + 2e-7 * (sum of |shift vectors| applied so far, scaled) and orientation tolerance 1e-6 instead of 1e-9; orientation matrices compared at 1e-6 (scipy as_euler switches to its gimbal-lock branch for |sin theta| < 1e-7, an approximation of ~3e-8)",
 ]
-BUDGET = {"quick": {"examples": 1300, "seconds": 80}, "thorough": {"examples": 5000, "seconds": 540}}
+BUDGET = {"quick": {"examples": 2000, "seconds": 80}, "thorough": {"examples": 5000, "seconds": 540}}
 
 vec = st.one_of(
     st.tuples(gen.finite(-20, 20), gen.finite(-20, 20), gen.finite(-20, 20)).map(list),
